@@ -40,7 +40,7 @@ def make_trait_def(name):
 def new_model(uid):
     return {"uid": uid, "value": 0, "ro": UNSET, "scratch": 7, "tags": [], "stags": [],
             "grid": [], "table": {}, "group": set(), "child": None, "friend": None,
-            "children": [], "members": set()}
+            "children": [], "members": set(), "sp": 0, "pv": UNSET}
 
 
 class Prop:
@@ -151,9 +151,11 @@ class Prop:
         if x < 0.92:
             return {"k": "children_append", "o": o,
                     "v": r.randrange(npool) if r.random() > invalid else "bad"}
-        if x < 0.96:
+        if x < 0.95:
             return {"k": r.choice(["members_add", "members_add", "members_discard"]), "o": o,
                     "v": r.randrange(npool)}
+        if x < 0.98:
+            return {"k": r.choice(["sp", "pv", "pv"]), "o": o, "v": fresh()}
         return {"k": "bump", "o": o}
 
     # ------------------------------------------------------------------ execution
@@ -165,6 +167,8 @@ class Prop:
         npool = trace["config"]["npool"]
         pool = [Rec(uid=i) for i in range(npool)]
         models = [new_model(i) for i in range(npool)]
+        self._models = models
+        self._allow_k5 = trace["config"].get("allow_k5", False)
         self.originals = []      # (objects, snapshots) frozen at fork time
         stats = {"copies": 0, "nondefault": 0}
         for i, op in enumerate(trace["ops"]):
@@ -190,6 +194,12 @@ class Prop:
                 if e is not None:
                     raise Violation("C14.fork", "deepcopy of the pool raised %r" % (e,), i)
                 self.compare_pool(pool, new, models, "deepcopy", i, ext_friend=True)
+                # a deep copy stores what the prototyped attribute read as at that moment
+                # as a local value of the copy (pickling does not)
+                reads = [self.pv_reads(m) for m in models]
+                for m, rd in zip(models, reads):
+                    if m["pv"] is UNSET and rd != "<unreadable>":
+                        m["pv"] = rd
                 self.originals.append((pool, [self.snapshot(x) for x in pool]))
                 # copy='ref' links of the copies point at the originals
                 for j, m in enumerate(models):
@@ -231,10 +241,13 @@ class Prop:
                 set(d.get("group", ())),
                 getattr(d.get("child"), "uid", None), getattr(d.get("friend"), "uid", None),
                 [c.uid for c in d.get("children", ())],
-                sorted(c.uid for c in d.get("members", ())))
+                sorted(c.uid for c in d.get("members", ())),
+                d.get("_spv", 0),
+                # the prototyped attribute by what it READS as (a copy may or may not turn
+                # the prototype's value into a local one): local value, else prototype's
+                (d["pv"] if "pv" in d else getattr(d.get("child"), "value", "<unreadable>")))
 
-    @staticmethod
-    def model_snapshot(m):
+    def model_snapshot(self, m):
         def u(v):
             if v is None:
                 return None
@@ -244,7 +257,18 @@ class Prop:
         return (m["value"], None if m["ro"] is UNSET else ("set", m["ro"]),
                 list(m["tags"]), list(m["stags"]), [list(r) for r in m["grid"]],
                 {a: list(b) for a, b in m["table"].items()}, set(m["group"]),
-                u(m["child"]), u(m["friend"]), list(m["children"]), sorted(m["members"]))
+                u(m["child"]), u(m["friend"]), list(m["children"]), sorted(m["members"]),
+                m["sp"], self.pv_reads(m))
+
+    def pv_reads(self, m):
+        if m["pv"] is not UNSET:
+            return m["pv"]
+        ch = m["child"]
+        if ch is None:
+            return "<unreadable>"
+        if isinstance(ch, tuple):
+            return ch[1].value
+        return self._models[ch]["value"]
 
     def check_state(self, x, m, what, step):
         got = self.snapshot(x)
@@ -252,7 +276,7 @@ class Prop:
         self.env.oracle_evals += 1
         if got != want:
             names = ["value", "ro", "tags", "stags", "grid", "table", "group", "child", "friend",
-                     "children", "members"]
+                     "children", "members", "sp", "pv"]
             diff = [(n, a, b) for n, a, b in zip(names, got, want) if a != b]
             raise Violation("C14.state", "%s: R%d holds %s" % (
                 what, m["uid"], "; ".join("%s=%r (model %r)" % d for d in diff[:3])), step)
@@ -351,7 +375,7 @@ class Prop:
         self.env.oracle_evals += 1
         if got != want:
             names = ["value", "ro", "tags", "stags", "grid", "table", "group", "child", "friend",
-                     "children", "members"]
+                     "children", "members", "sp", "pv"]
             diff = [(n, a, b) for n, a, b in zip(names, got, want) if a != b]
             raise Violation("C14.state", "%s: copy of R%d holds %s" % (
                 mode, m["uid"], "; ".join("%s=%r (model %r)" % d for d in diff[:3])), step)
@@ -394,7 +418,8 @@ class Prop:
                 "grid": [list(r) for r in m["grid"]],
                 "table": {a: list(b) for a, b in m["table"].items()},
                 "group": set(m["group"]), "child": m["child"], "friend": m["friend"],
-                "children": list(m["children"]), "members": set(m["members"])}
+                "children": list(m["children"]), "members": set(m["members"]),
+                "sp": m["sp"], "pv": m["pv"]}
 
     # the liveness battery -------------------------------------------------------------
     def battery(self, pool, models, step):
@@ -532,6 +557,11 @@ class Prop:
             m["scratch"] = op["v"]
         elif k in ("child", "friend"):
             v = op["v"]
+            if k == "child" and v is None and m["pv"] is not UNSET and not self._allow_k5:
+                # known finding K5: a local value of a prototyped attribute whose
+                # prototype link is None cannot be unpickled again
+                self.env.probe("k5-guard-skip")
+                return
             tgt = None if v is None else pool[v % len(pool)]
             _, e = sut(setattr, x, k, tgt)
             m[k] = None if v is None else v % len(pool)
@@ -547,6 +577,15 @@ class Prop:
                 v = op["v"] % len(pool)
                 _, e = sut(x.children.append, pool[v])
                 m["children"].append(v)
+        elif k == "sp":
+            _, e = sut(setattr, x, "sp", op["v"])
+            m["sp"] = op["v"]
+        elif k == "pv":
+            # a local value for the prototyped attribute (validated by the prototype's trait)
+            if m["child"] is None:
+                return
+            _, e = sut(setattr, x, "pv", op["v"])
+            m["pv"] = op["v"]
         elif k in ("members_add", "members_discard"):
             v = op["v"] % len(pool)
             if k == "members_add":
